@@ -18,7 +18,7 @@ META = {
     "assumes": ["Base64 input is a valid &str (ASCII or one 2-byte character)"],
     "outside_bounds": [
         "HTTP request parser: decided on engine M for the malformed-request templates listed under `request_parser` (arbitrary ASCII garbage of 1..4 bytes at the start line, in a header line, after a complete header; multi-byte UTF-8 at the slicing positions; invalid UTF-8; Content-Length claims) — longer garbage, the tokio twin and read segmentation are not covered",
-        "HTTP response parser: NOT decided (same construction would apply; not built)",
+        "HTTP response parser: decided on engine M for the malformed-response templates listed under `response_parser` (status line / header line / chunk-size garbage, lines without a colon, multi-byte UTF-8 at the slicing positions, Content-Length and chunk-size claims); longer garbage, trailers and read segmentation are not covered",
         "JSON parser: `no panic` for every Unicode string of 0..4 characters (engine M, same encoding as C13); configuration parser: only the size-suffix kernel (see C15)",
         "WebSocket message assembly (Message::from_stream): CBMC out of memory (see C11)",
         "stack overflow and wall-clock time: termination within the unwinding bound is what is shown; inputs longer than 16 bytes (frames) / 9 symbols (Base64)",
@@ -85,6 +85,44 @@ def run(tier, run_k):
     ok = [r for r in d["results"] if r["verdict"] == "unsat"]
     log("   request parser (engine M): %d/%d malformed-request templates free of panics and over-sized allocations, %d paths, translator validation on %s requests (%s native panics among them)" % (
         len(ok), len(d["results"]), sum(r.get("paths", 0) for r in d["results"]), d["validation"].get("inputs"), d["validation"].get("native_panics_seen")))
+    # ---- HTTP response parser
+    from . import c07_resp
+    try:
+        d2 = c07_resp.run_part(tier, work, mir, "np")
+    except Exception as e:
+        log("UNDISCHARGED: response parser — %s" % str(e)[:500])
+        d2 = {"results": [], "violations": [], "known_hits": [], "machinery": [], "undischarged": [{"template": "all", "why": str(e)[:300]}], "validation": {}}
+    for i, r in enumerate(d2["violations"][:4]):
+        path = os.path.join(REPLAY_DIR, "C03-response-%d.json" % i)
+        with open(path, "w") as f:
+            json.dump({"property": ID, "engine": "M", "kind": "response", "replay": r["replay"], "how": "./check C03 --replay " + path}, f, indent=1)
+        log("VIOLATION property=%s replay=%s" % (ID, path))
+        rp = r["replay"]
+        log("   response %r: %s — natively dev: %s / release: %s" % (rp["text"][:120], rp["failed"][:120], rp["native_dev"][:80], rp["native_release"][:80]))
+        rc = 1
+        nviol += 1
+    for rp in d2["known_hits"]:
+        log("KNOWN-FINDING: property=%s key=%s %s [response %r]" % (ID, rp["key"], known[(ID, rp["key"])], rp["text"][:80]))
+    for m in d2["machinery"]:
+        log("MACHINERY-ERROR: response parser — " + m[:600])
+        rc = rc or 2
+    for r in d2["undischarged"][:6]:
+        log("UNDISCHARGED: response parser template %s — %s" % (r.get("template"), r.get("why")))
+    ok2 = [r for r in d2["results"] if r["verdict"] == "unsat"]
+    log("   response parser (engine M): %d/%d malformed-response templates free of panics and over-sized allocations, %d paths, translator validation on %s responses" % (
+        len(ok2), len(d2["results"]), sum(r.get("paths", 0) for r in d2["results"]), d2["validation"].get("inputs")))
+    cov["response_parser"] = {
+        "functions_encoded": ["humphrey/src/http/response.rs: Response::from_stream, parse_chunk, safe_assert (MIR of the current tree)"],
+        "templates": {r["template"]: {k2: r.get(k2) for k2 in ("verdict", "paths", "n_checks", "wall_s", "why")} for r in d2["results"]},
+        "bounds": "arbitrary ASCII garbage of 1..3 (4) bytes as status line, inside the status line, in and after header lines; header lines without a colon; 2-, 3-, 4-byte UTF-8 characters at the slicing positions; invalid UTF-8; Content-Length with symbolic digits / arbitrary characters / 1 GiB / 2^64-1; chunk-size lines with arbitrary characters, 6 symbolic hex digits, 1 GiB, 2^64-1, a truncated chunk",
+        "translator_validation": d2["validation"], "known_findings_seen": d2["known_hits"], "violations": [r["replay"] for r in d2["violations"]][:4], "undischarged": d2["undischarged"][:10],
+    }
+    cov["evaluations"] += len(d2["results"]); cov["distinct_nontrivial"] += len(ok2)
+    cov["obligations"] = cov.get("obligations", 0) + len(d2["results"]); cov["discharged"] = cov.get("discharged", 0) + len(ok2)
+    cov["states"] = cov.get("states", 0) + sum(r.get("blocks", 0) for r in d2["results"])
+    cov["transitions"] = cov.get("transitions", 0) + sum(r.get("n_checks", 0) for r in d2["results"])
+    cov["traces_validated_against_impl"] = cov.get("traces_validated_against_impl", 0) + (d2["validation"].get("inputs") or 0)
+    cov["functions_encoded"] = list(cov.get("functions_encoded", [])) + cov["response_parser"]["functions_encoded"]
     # ---- JSON parser: no panic (C13's encoding)
     jres, jviol, jund = [], [], []
     try:
@@ -153,7 +191,7 @@ def run(tier, run_k):
     cov["known_findings_seen"] = list(cov.get("known_findings_seen", [])) + [{"key": h["key"], "input": h["text"][:80]} for h in d["known_hits"]]
     assumptions = assumptions + ["request parser: BufReader/read_until/read_exact model over the scripted bytes, allocation accounting in the vec![x; n] model (sizes above the remaining script are represented by one buffer), symbolic bytes are ASCII; validated per run against the native parser on concrete malformed requests"]
     write_evidence(ID, tier, cov, assumptions, time.time() - t0, nviol)
-    log("== %s: %d/%d obligations discharged (K frame/Base64 + M request parser + M JSON no-panic), %d violation(s), %d known finding(s); %.0fs wall" % (ID, cov["discharged"], cov["obligations"], nviol, len(d["known_hits"]), time.time() - t0))
+    log("== %s: %d/%d obligations discharged (K frame/Base64 + M request/response parsers + M JSON no-panic), %d violation(s), %d known finding(s); %.0fs wall" % (ID, cov["discharged"], cov["obligations"], nviol, len(d["known_hits"]), time.time() - t0))
     return rc
 
 
@@ -163,6 +201,9 @@ def replay(d, path):
     from . import c03_req, c13
     mengine.setup(ID)
     kengine.write_lists({})
+    if d.get("kind") == "response":
+        from . import c07_resp
+        return c07_resp.replay(d, path, ID)
     if d.get("kind") == "json":
         exe = mengine.build_mtool("debug")
         exe_rel = mengine.build_mtool("release")
